@@ -281,8 +281,9 @@ Definition rd_ydoc : rd ydoc :=
   rd_bind rd_modlist (fun ms => rd_bind rd_modlist (fun apps =>
   rd_bind (rd_optlist rd_s) (fun inc => rd_bind (rd_optlist rd_s) (fun sub =>
   rd_bind (rd_optP rd_ymod) (fun dm => rd_bind (rd_optP rd_ymod) (fun da =>
+  rd_bind (rd_optlist rd_s) (fun imp =>
   rd_ret {| d_contexts := cs; d_builders := bs; d_modules := ms; d_apps := apps; d_includes := inc;
-            d_subdirs := sub; d_defaults_module := dm; d_defaults_app := da |})))))))).
+            d_subdirs := sub; d_defaults_module := dm; d_defaults_app := da; d_imports := imp |}))))))))).
 
 Definition rd_yfile : rd (str * list ydoc) := rd_bind rd_s (fun f => rd_bind (rd_list rd_ydoc) (fun ds => rd_ret (f, ds))).
 Definition rd_ytree : rd ytree := rd_list rd_yfile.
